@@ -255,3 +255,7 @@ Proof.
     destruct (box_selected_slabs (fst (fst t)) (scale_at cfg t) p Hq Hk) as [_ O].
     change (scale_of cfg (gt_of t)) with (scale_at cfg t). cbn [gt_of g_box]. apply O, Ho, Ht.
 Qed.
+
+Lemma fr_nondet_eval cfg gts cloud pcs :
+  fr_nondet (evaluate_frame cfg gts cloud pcs) = eval_non_detection (fun p => p) cfg gts pcs.
+Proof. unfold evaluate_frame. destruct (eval_detection cfg cloud (indexed gts)) as [[su fa] wa]. reflexivity. Qed.
